@@ -436,6 +436,16 @@ func cryptoStub(in *Interp, fn *ssa.Function, pkg, name string) StubFn {
 				}
 				in.store(a[0].(Ptr), sl)
 				res := fn.Signature.Results()
+				if in.cfg.CodecConsumes && name == "ReadFrom" {
+					// the codec's framing: a 4-byte length and n elements of fixed size, read from the caller's reader
+					// with io.ReadFull semantics; a short stream is an error; the count returned is what was consumed
+					want := 4 + n*elemByteSize(vt.Elem())
+					got := in.ioMove(a[1], "Read", want)
+					if got < want {
+						return TupleV{BVConst(uint64(got), 64), in.newError("unexpected EOF")}
+					}
+					return TupleV{BVConst(uint64(got), 64), in.errOrNil("Vector." + name)}
+				}
 				if res.Len() == 2 {
 					return TupleV{in.fresh("bytesRead", BVSort(64)), in.errOrNil("Vector." + name)}
 				}
@@ -443,6 +453,18 @@ func cryptoStub(in *Interp, fn *ssa.Function, pkg, name string) StubFn {
 			}
 		case "WriteTo", "MarshalBinary":
 			return func(in *Interp, fn *ssa.Function, a []Val) Val {
+				if name == "WriteTo" && in.cfg.CodecConsumes {
+					sl, isSl := a[0].(SliceV)
+					if !isSl {
+						sl, _ = in.load(a[0].(Ptr)).(SliceV)
+					}
+					want := 4 + sl.Len*elemByteSize(rn.Underlying().(*types.Slice).Elem())
+					got := in.ioMove(a[1], "Write", want)
+					if got < want {
+						return TupleV{BVConst(uint64(got), 64), in.newError("short write")}
+					}
+					return TupleV{BVConst(uint64(got), 64), IfaceV{}}
+				}
 				if name == "WriteTo" {
 					return TupleV{in.fresh("bytesWritten", BVSort(64)), in.errOrNil("Vector.WriteTo")}
 				}
@@ -873,4 +895,52 @@ func cryptoStub(in *Interp, fn *ssa.Function, pkg, name string) StubFn {
 		}
 	}
 	return nil
+}
+
+
+// elemByteSize is the encoded size of a field element: its words
+func elemByteSize(t types.Type) int {
+	if a, ok := t.Underlying().(*types.Array); ok {
+		if b, ok := a.Elem().Underlying().(*types.Basic); ok {
+			if w, _, ok := intWidth(b); ok {
+				return int(a.Len()) * w / 8
+			}
+		}
+	}
+	return 32
+}
+
+// ioMove moves up to n opaque bytes through the Read / Write method of an io.Reader / io.Writer value the interpreted
+// program supplied (io.ReadFull semantics for Read); returns how many bytes went through
+func (in *Interp) ioMove(rw Val, method string, n int) int {
+	iv, ok := rw.(IfaceV)
+	if !ok || iv.T == nil {
+		in.progPanic("nil pointer dereference (nil reader / writer)")
+	}
+	ms := in.prog.MethodSets.MethodSet(iv.T)
+	var sel *types.Selection
+	for i := 0; i < ms.Len(); i++ {
+		if ms.At(i).Obj().Name() == method {
+			sel = ms.At(i)
+		}
+	}
+	if sel == nil {
+		panic(abort("unmodelled", "value without "+method))
+	}
+	done := 0
+	for done < n {
+		var b SliceV
+		if method == "Write" {
+			b = in.freshBytes(n-done, "encoded")
+		} else {
+			b = in.makeSlice(types.Typ[types.Uint8], n-done, n-done)
+		}
+		r := in.call(FuncV{Fn: in.prog.MethodValue(sel)}, []Val{iv.V, b}, nil).(TupleV)
+		k := in.needInt(r[0].(*Term), method+" count")
+		done += k
+		if e, _ := r[1].(IfaceV); e.T != nil || k == 0 {
+			break
+		}
+	}
+	return done
 }
